@@ -1196,13 +1196,12 @@ class SCFGIO:
                 raise TypeError("Block type not found.")
 
         seen = set()
-        q: Set[Tuple[str, BasicBlock]] = set()
-        # Order of elements doesn't matter since they're going to
-        # be sorted at the end.
-        q.update(scfg.graph.items())
+        # Blocks are not hashable in general (they may hold dictionaries or
+        # sub-graphs), so the work-list is a FIFO and not a set.
+        q: deque[Tuple[str, BasicBlock]] = deque(scfg.graph.items())
 
         while q:
-            key, value = q.pop()
+            key, value = q.popleft()
             if key in seen:
                 continue
             seen.add(key)
@@ -1212,7 +1211,7 @@ class SCFGIO:
             if isinstance(value, RegionBlock):
                 assert value.subregion is not None
                 assert value.parent_region is not None
-                q.update(value.subregion.graph.items())
+                q.extend(value.subregion.graph.items())
                 blocks[key]["kind"] = value.kind
                 blocks[key]["contains"] = sorted(
                     [idx.name for idx in value.subregion.graph.values()]
@@ -1228,8 +1227,10 @@ class SCFGIO:
             elif isinstance(value, PythonBytecodeBlock):
                 blocks[key]["begin"] = value.begin
                 blocks[key]["end"] = value.end
-            edges[key] = sorted([i for i in value._jump_targets])
-            backedges[key] = sorted([i for i in value.backedges])
+            # The order of the jump targets encodes the branch decision and
+            # must be preserved.
+            edges[key] = [i for i in value._jump_targets]
+            backedges[key] = [i for i in value.backedges]
 
         graph_dict = {"blocks": blocks, "edges": edges, "backedges": backedges}
 
